@@ -17,6 +17,9 @@ RULE = ("cases = (a) fin: the REAL Runner.run/_finish/Promise.join over a script
         "(c) real: invoke.Context().run on real children `exit N` / `kill -SIG $$`, pty on/off, warn on/off, sync/async; "
         "(d) prog: the real Program.run with bodies raising Exit / UnexpectedExit / running a failing real child / parse errors; "
         "(e) histories of several runs on one Runner object; (f) one promise joined several times / left through `with` after joins. "
+        "COMMAND TEXT is a dimension of (a) and (d) as well (braces, %, backslashes, quotes, newlines, non-ASCII, empty), for "
+        "UnexpectedExit / CommandTimedOut / Failure, direct str()/repr() and through Program.run; (f) joins x timeout {absent, "
+        "given and not reached (scripted and real child), given and reached (real child)} x warn x join count x exit via with; "
         "OUTPUT TEXT is a dimension of (a) and (d): what the failing scripted/real child printed on stdout/stderr (hidden or not) is "
         "drawn from texts with characters special to Python's own templating ({ } {} {0} {{x}} ${VAR} %s %(x)s %), JSON, tails "
         "longer than the 10 displayed lines, non-ASCII, empty - the program's exit status and the return/raise decision must not "
@@ -43,6 +46,14 @@ TECHNIQUE = "Lean 4 theorems (omega/decide/case analysis, all finite) over regen
 
 QUICK_CODES = [0, 1, 2, 126, 127, 128, 255]
 
+# the COMMAND text itself: characters special to Python's own templating, %, backslashes, quotes, newlines, non-ASCII,
+# empty (the scripted process does not interpret it; REAL_CMDS are valid shell with the same shapes)
+CMD_TEXTS = ["echo ${var}", "{ ls; }", "find . -name '*.pyc' -exec rm {} ;", "echo {0} {1}", "echo {{x}}", "printf '%s\\n' x",
+             "echo 100%", "echo %(x)s %d", "a\\b \\{ \\n", "echo \"q\" 'r' `t`", "line1\nline2 {\n}", "\u00e9{\u00fc} \u4e2d", "{", "}",
+             "{!r}", "{:>8}", "{a.b}{0[0]}", "", "x" * 2000 + "{}"]
+REAL_CMDS = [(": ${var}; exit 3", 3), ("{ true; }; exit 4", 4), ("echo '{}' >/dev/null; exit 5", 5),
+             ("printf '%s' x >/dev/null; exit 6", 6), ("true\nexit 7", 7), (": \u00e9 '{0}'; exit 8", 8), (": \\{ \"}\"; exit 9", 9)]
+
 # what the failing command printed: characters special to Python's own templating, JSON, long tails (> 10 lines, the
 # error display shows the last 10), non-ASCII, empty, no trailing newline
 OUT_TEXTS = ["", "plain\n", "{", "}", "{}", "{0}", "{1} {0}\n", "{{x}}\n", "${HOME}\n", "$V %s %(x)s 100%\n", "%", "%d%%\n",
@@ -60,8 +71,8 @@ def oracle_fin(case, o, twin):
     why = oracle_fin_decision(case, o, twin)
     if why is None and case["thread"] == "none" and o.get("render"):
         # separate clause: the failure "carries that same complete result" - rendering it is how users see it
-        return "[render] %s raised for a command that printed stdout=%r stderr=%r: %s" % (
-            o["exact"], case.get("out", "hello "), case.get("err", "oops"), o["render"])
+        return "[render] %s raised for command %r that printed stdout=%r stderr=%r: %s" % (
+            o["exact"], case.get("cmd", "the-command"), case.get("out", "hello "), case.get("err", "oops"), o["render"])
     return why
 
 
@@ -241,17 +252,45 @@ def reuse_case(case):
     return None
 
 
+def settle(runner):
+    """a later join happens "later": let a cancelled / expired timer thread of the runner finish first, so that every
+    further join sees the steady state (deterministic instead of racing the timer thread's exit)"""
+    t = getattr(runner, "_timer", None)
+    if t is not None and hasattr(t, "join"):
+        try:
+            t.join(1.0)
+        except RuntimeError:
+            pass
+
+
 def joins_case(case):
     """HISTORY: one asynchronous run whose promise is joined several times (explicit join()s, and/or leaving a
     `with promise:` block, which joins again): EVERY join must take the same decision from the command's status -
-    return iff status 0 or warn, else UnexpectedExit carrying that status."""
+    return iff status 0 or warn, else UnexpectedExit carrying that status; with a timeout that was REACHED every join
+    raises CommandTimedOut regardless of warn; a timeout that was given but NOT reached changes nothing.
+
+    case["timeout"]: "absent" | "unreached" (scripted child, timeout 30) | "unreached-real" (real child `exit rc`, timeout
+    30) | "reached" (real child `sleep`, timeout 0.15)"""
     from invoke import Context, Config
-    from invoke.exceptions import UnexpectedExit
+    from invoke.exceptions import UnexpectedExit, CommandTimedOut
+    from invoke.runners import Local
     from fakerunner import Scripted
-    rc, warn = case["rc"], case["warn"]
+    rc, warn, tmo = case["rc"], case["warn"], case.get("timeout", "absent")
     want = ("return", rc) if (rc == 0 or warn) else ("UnexpectedExit", rc)
-    r = Scripted(Context(Config()), out=[b"o"], exited=rc, finish_when="drained")
-    p = r.run("cmd", hide=True, in_stream=False, warn=warn, asynchronous=True)
+    kw = dict(hide=True, in_stream=False, warn=warn, asynchronous=True)
+    if tmo == "reached":
+        want = ("CommandTimedOut", None)
+        r = Local(Context(Config()))
+        p = r.run("sleep 5", timeout=0.15, **kw)
+    elif tmo == "unreached-real":
+        r = Local(Context(Config()))
+        p = r.run("exit %d" % rc if rc >= 0 else "kill %d $$" % rc, timeout=30, **kw)
+    else:
+        r = Scripted(Context(Config()), out=[b"o"], exited=rc, finish_when="drained")
+        if tmo == "unreached":
+            kw["timeout"] = 30
+        p = r.run("cmd", **kw)
+    what = "status %d, warn=%s, timeout %s" % (rc, warn, tmo)
 
     def one(f):
         try:
@@ -259,20 +298,29 @@ def joins_case(case):
             return ("return", getattr(res, "exited", rc))
         except UnexpectedExit as e:
             return ("UnexpectedExit", e.result.exited)
+        except CommandTimedOut:
+            return ("CommandTimedOut", None)
 
-    for i in range(case["joins"]):
-        got = one(p.join)
-        if got != want:
-            return "join %d of one promise (status %d, warn=%s): got %s, the property demands %s" % (i + 1, rc, warn, got, want)
-    if case["with"]:
-        def leave():
-            with p:
-                pass
-            return p.runner  # no result object here: only return-vs-raise is observable
-        got = one(leave)
-        if got[0] != want[0] or (got[0] == "UnexpectedExit" and got != want):
-            return "leaving `with promise:` after %d join(s) (status %d, warn=%s): got %s, the property demands %s" % (
-                case["joins"], rc, warn, got[0], want[0])
+    try:
+        for i in range(case["joins"]):
+            got = one(p.join)
+            if got != want:
+                return "join %d of one promise (%s): got %s, the property demands %s" % (i + 1, what, got, want)
+            settle(r)
+        if case["with"]:
+            def leave():
+                with p:
+                    pass
+                return p.runner  # no result object here: only return-vs-raise is observable
+            got = one(leave)
+            if got[0] != want[0] or (got[0] == "UnexpectedExit" and got != want):
+                return "leaving `with promise:` after %d join(s) (%s): got %s, the property demands %s" % (
+                    case["joins"], what, got[0], want[0])
+    finally:
+        try:
+            r.stop()
+        except Exception:  # noqa
+            pass
     return None
 
 
@@ -401,9 +449,28 @@ def run(ctx):
     for text in (tails if big else rng.sample(tails, 6)):
         specs.append({"body": "realout", "out": text, "err": rng.choice(tails), "hide": rng.choice([True, "out", "err"]),
                       "want": rng.choice([1, 3, 255])})
+    # (d'') COMMAND TEXT as a dimension: same demand, whatever the command line looks like
+    for i, cmd in enumerate(CMD_TEXTS):
+        specs.append({"body": "ue", "exited": rng.choice([1, 7, 255]), "hide": ["stdout", "stderr"], "cmd": cmd,
+                      "out": rng.choice(["", "plain\n"]), "err": ""})
+        specs.append({"body": "ue", "exited": rng.choice([2, 127]), "hide": [], "cmd": cmd, "out": "", "err": ""})
+        specs.append({"body": "scripted", "out": rng.choice(OUT_TEXTS), "err": "", "hide": rng.choice([True, "out", "err", None]),
+                      "want": rng.choice([1, 3, 255]), "pty": False, "cmd": cmd})
+    for cmd, want in REAL_CMDS:
+        specs.append({"body": "real", "cmd": cmd, "want": want})
     for s in specs:
         cases.append({"kind": "prog", "spec": s})
         lines.append(prog_line(s))
+    # (a'') the command text for direct run() callers: UnexpectedExit, CommandTimedOut, Failure, returned result  [render]
+    for i, cmd in enumerate(CMD_TEXTS):
+        for timer, watcher, warn in (("none", False, False), ("fired", False, False), ("fired", False, True), ("none", True, False),
+                                     ("none", False, True)):
+            for hide in ((True, None) if big else (rng.choice([True, None, "out", "err"]),)):
+                c = {"kind": "fin", "code": rng.choice([1, 2, 255, -9]), "warn": warn, "hide": hide, "pty": rng.random() < 0.25,
+                     "timer": timer, "watcher": watcher, "thread": "none", "async": rng.random() < 0.3,
+                     "out": rng.choice(OUT_TEXTS[:3] + [rng.choice(OUT_TEXTS)]), "err": "", "cmd": cmd}
+                cases.append(c)
+                lines.append(fin_line(c))
     # (a') the same dimension for direct run() callers: the decision does not depend on the text, and the failure
     # (or result) can be rendered  [render]
     for i, text in enumerate(OUT_TEXTS):
@@ -429,6 +496,8 @@ def run(ctx):
             out.hist["fin:" + got.split()[0]] += 1
             if "out" in c:
                 out.hist["fin:output-text-dimension"] += 1
+            if "cmd" in c:
+                out.hist["fin:command-text-dimension:" + got.split()[0]] += 1
             if c["async"]:
                 out.hist["fin:async"] += 1
         elif k == "wait":
@@ -475,6 +544,8 @@ def run(ctx):
             out.hist["prog:" + c["spec"]["body"]] += 1
             if any(ch in c["spec"].get("out", "") + c["spec"].get("err", "") for ch in "{}%"):
                 out.hist["prog:output-with-template-chars"] += 1
+            if "cmd" in c["spec"] and any(ch in c["spec"]["cmd"] for ch in "{}%\\\n"):
+                out.hist["prog:command-with-template-chars"] += 1
         if m is not None:
             out.traces += 1
             if m != got:
@@ -495,12 +566,23 @@ def run(ctx):
         for warn in (False, True):
             for joins in (1, 2, 3):
                 for w in (False, True):
-                    c = {"kind": "joins", "rc": rc, "warn": warn, "joins": joins, "with": w}
-                    out.case(c, True)
-                    out.hist["joins"] += 1
-                    ok, why = replay(c)
-                    if not ok:
-                        out.fail(c, why)
+                    for tmo in ("absent", "unreached"):
+                        c = {"kind": "joins", "rc": rc, "warn": warn, "joins": joins, "with": w, "timeout": tmo}
+                        out.case(c, True)
+                        out.hist["joins:timeout-" + tmo] += 1
+                        ok, why = replay(c)
+                        if not ok:
+                            out.fail(c, why)
+    # the timeout dimension on REAL children: given and reached / given and not reached
+    for warn in (False, True):
+        for joins, w in (((1, True), (2, False), (3, True)) if not big else ((1, False), (1, True), (2, False), (2, True), (3, False), (3, True))):
+            for tmo, rc in (("reached", 0), ("unreached-real", 0), ("unreached-real", 3)):
+                c = {"kind": "joins", "rc": rc, "warn": warn, "joins": joins, "with": w, "timeout": tmo}
+                out.case(c, True)
+                out.hist["joins:timeout-" + tmo] += 1
+                ok, why = replay(c)
+                if not ok:
+                    out.fail(c, why)
     out.exhaustive = True
     out.extra["table_obligations"] = 6  # finish_order, finish_probe_agrees/complete, exit_probe_agrees, exit_obj_probe_agrees, exitCodeMap_eq
     out.extra["terminating_signals_probed"] = sigs
